@@ -797,3 +797,51 @@ M("C07", IA, """            ast.BitOr: _bitwise_or,""", """            ast.BitOr
 M("C07", IA, """def _sub(x, y):
     return p.Sum((x, p.Product(((-1), y))))""", """def _sub(x, y):
     return p.Sum((y, p.Product(((-1), x))))""", "importer subtraction operands swapped")
+
+CM = "pymbolic/compiler.py"
+M("C13", CM, """        used_variables.sort(key=lambda var: var.name)
+        all_variables = self._Variables + used_variables""", """        used_variables.sort(key=lambda var: var.name)
+        all_variables = used_variables + self._Variables""", "listed variables appended last")
+M("C13", CM, """        used_variables.sort(key=lambda var: var.name)""", """        used_variables.sort(key=lambda var: (len(var.name), var.name))""", "unlisted variables sorted by length first")
+M("C13", CM, """        result = repr(expr)
+
+        # same rule""", """        result = str(expr) if isinstance(expr, float) else repr(expr)
+        result = result.replace("e+", "e") if False else result[:6]
+
+        # same rule""", "constants truncated to 6 characters")
+M("C13", CM, """    def __setstate__(self, state):
+        self._compile(*state)""", """    def __setstate__(self, state):
+        self._compile(state[0], sorted(state[1], key=str))""", "unpickling re-sorts the listed variables")
+M("C13", IA, """        result = rec_children[-1]
+        for child in rec_children[-2::-1]:
+            result = ast.BinOp(child, op_type, result)""", """        result = rec_children[0]
+        for child in rec_children[1:]:
+            result = ast.BinOp(child, op_type, result)""", "n-ary fold swaps operand order (a-b style ops: quotient, shifts)")
+M("C13", IA, """        return ast.IfExp(test=self.rec(expr.condition),
+                         body=self.rec(expr.then),
+                         orelse=self.rec(expr.else_))""", """        return ast.IfExp(test=self.rec(expr.condition),
+                         body=self.rec(expr.else_),
+                         orelse=self.rec(expr.then))""", "to-AST swaps the branches of If")
+M("C13", IA, """                for kw, param in sorted(expr.kw_parameters.items())])""", """                for kw, param in sorted(expr.kw_parameters.items())][:1])""", "to-AST keeps one keyword argument")
+M("C13", IA, """        return self._map_multi_children_op((expr.shiftee,
+                                            expr.shift),
+                                           ast.RShift())""", """        return self._map_multi_children_op((expr.numerator,
+                                            expr.denominator),
+                                           ast.RShift())""", "revert of fix 230b2a8 (right shift attributes)")
+M("C13", IA, """        elif isinstance(expr, (int, float)) and expr < 0:
+            # ast.unparse prints Constant(-2) as '-2', which binds weaker
+            # than '**' in source: Power(-2, x) must not become '-2 ** x'.
+            return ast.UnaryOp(ast.USub(), ast.Constant(-expr, None))""", """        elif False:
+            return ast.UnaryOp(ast.USub(), ast.Constant(-expr, None))""", "revert of fix c786cc1 (negative constants)")
+M("C13", IA, """    dep_mapper = CachedDependencyMapper(composite_leaves=False)""", """    dep_mapper = CachedDependencyMapper(composite_leaves=True)""", "revert of fix 4d8ac06 (composite leaves)")
+M("C13", CM, """        used_variables.sort(key=lambda var: var.name)""", """        used_variables.sort()""", "revert of fix bb03683 (unorderable variables)")
+M("C13", CM, """        if not (result.startswith("(") and result.endswith(")")) \\
+                and ("-" in result or "+" in result) \\
+                and (enclosing_prec > PREC_SUM):
+            return self.parenthesize(result)
+        else:
+            return result
+
+    def map_polynomial""", """        return result
+
+    def map_polynomial""", "revert of fix e2c7aa5 (negative constants in compile)")
